@@ -11,7 +11,7 @@ def table(J):
         "C08": [J("TestC08", checks=(40000, 400000), shards=(4, 16), limit=(600, 2400)), J("TestC08Sweep", shards=(4, 16), limit=(600, 2400), fuzz=("FuzzC08", 240))],
         "C09": [J("TestC09", checks=(8000, 60000), shards=(3, 16)), J("TestC09Sweep", shards=(5, 5))],
         "C10": [J("TestC10", race=True, checks=(150, 1500), shards=(4, 16), limit=(900, 3000)), J("TestC10Parse", race=True, checks=(60, 600), shards=(2, 8), limit=(900, 3000))],
-        "C11": [J("TestC11", race=True, checks=(150, 1500), shards=(4, 16), limit=(900, 3000))],
+        "C11": [J("TestC11", race=True, checks=(150, 1500), shards=(4, 16), limit=(900, 3000)), J("TestC11Idle", race=True, shards=(1, 1))],
         "C12": [J("TestC12", checks=(8000, 60000), shards=(4, 16))],
         "C13": [J("TestC13", checks=(8000, 60000), shards=(4, 16))],
         "C14": [J("TestC14Cold", race=True, shards=(6, 16)), J("TestC14Xid", race=True, shards=(1, 4)), J("TestC14Batch", race=True, checks=(60, 500), shards=(2, 8)), J("TestC14Xid", shards=(1, 8))],
